@@ -55,18 +55,19 @@ func (f *Loop) Call(s *slip.Scope, args slip.List, depth int) (result slip.Objec
 top:
 	for {
 		for _, form := range args {
-			if tr, ok := ns.Eval(form, d2).(*slip.ReturnResult); ok {
+			switch tr := ns.Eval(form, d2).(type) {
+			case *slip.ReturnResult:
 				if tr.Tag == nil {
 					result = tr.Result
-					break top
+				} else {
+					result = tr // a block further out, return-from checked that it exists
 				}
-				if s.Block {
-					result = tr
-					break top
-				}
-				// slip.ErrorPanic(s, depth, "return from unknown block: %s", tr.Tag)
+				break top
+			case *GoTo:
+				result = tr // a tag of an enclosing tagbody
+				break top
 			}
-			// Anything other than ReturnResult continues.
+			// Anything other than ReturnResult or GoTo continues.
 		}
 	}
 	return
